@@ -483,7 +483,6 @@ func rr2Constructors(w *World) {
 	w.floor("composite-node constructors in package ast", n, 30)
 }
 
-
 // rr3SameBuffer (RR3): the byte buffer whose offsets the lexer records (the rune reader's data)
 // is the very buffer ast.NewFileInfo is given; otherwise every recorded token offset is resolved
 // against different bytes and the AST no longer reproduces the source.
